@@ -73,14 +73,21 @@ def cel_readonly(res):
              ("S", sl_i, "value.exists(x, x > 6) || value.exists_one(x, x == 5)"), ("F", sl_f, "size(value.filter(v, v > 0.5)) < 3"),
              ("N", sl_s, "size(value.filter(n, n != '')) >= 1 && value.all(n, size(n) < 9)"), ("U", T("[]uint8", "TSlice", "coll"), "size(value.filter(b, b > 1)) <= 1"),
              # patterns only known at run time: any cache of compiled patterns is shared state
-             ("Pin", basic("string"), "value.matches(this.Pat) || value == ''"), ("Pat", basic("string"), "value != '(' && 'abc'.matches(value)")]
+             ("Pin", basic("string"), "value.matches(this.Pat) || value == ''"), ("Pat", basic("string"), "value != '(' && 'abc'.matches(value)"),
+             # conversions and string functions: any runtime helper behind them that memoises or caches is shared state
+             ("Dbl", basic("string"), "double(value) >= 0.0 && double(value) <= 100.0 || value != ''"), ("Int", basic("string"), "int(value) >= 0 || value != ''"),
+             ("Dur", basic("string"), "duration(value) >= duration('0s') || value != ''"), ("Str", basic("int"), "string(value) != '' && string(value) != 'x'"),
+             ("Sfn", basic("string"), "value.contains('a') || value.startsWith('b') || value.endsWith('c') || size(value) >= 0")]
     fields = [fld(nm, ["//govalid:cel=" + e], t) for nm, t, e in exprs]
 
     def sets(ints, strs):
         return [{"path": "Q", "vk": "coll", "intelems": ints}, {"path": "R", "vk": "coll", "intelems": ints[::-1]},
                 {"path": "S", "vk": "coll", "intelems": ints}, {"path": "F", "vk": "coll", "intelems": ints},
                 {"path": "N", "vk": "coll", "strelems": [x.encode().hex() for x in strs]}, {"path": "U", "vk": "coll", "intelems": [abs(i) for i in ints]},
-                {"path": "Pin", "vk": "string", "str": ("ab" + "".join(strs)).encode().hex()}, {"path": "Pat", "vk": "string", "str": ("^a[b-z]*" + "".join(strs)).encode().hex()}]
+                {"path": "Pin", "vk": "string", "str": ("ab" + "".join(strs)).encode().hex()}, {"path": "Pat", "vk": "string", "str": ("^a[b-z]*" + "".join(strs)).encode().hex()},
+                {"path": "Dbl", "vk": "string", "str": str(ints[0] * 10).encode().hex()}, {"path": "Int", "vk": "string", "str": str(ints[-1]).encode().hex()},
+                {"path": "Dur", "vk": "string", "str": (str(abs(ints[0])) + "s").encode().hex()}, {"path": "Str", "vk": "int", "int": str(ints[0])},
+                {"path": "Sfn", "vk": "string", "str": "".join(strs).encode().hex()}]
     cases = [case(sets([-1, 5, 7], ["", "ab", "c"])), case(sets([3, -2, 4, 9], ["a", "", ""])), case(sets([0, 0, 1], ["x"])), case(sets([9, 8, 7, 6, 5], ["", "", "z"])), case(sets([-5], [""]))]
     gr = genfam.GenRun(res, {"scenarios": [scenario("c16cel", [struct("T", fields, cases)])]}, "c16cel")
     if not gr.generate() or gr.gen_status != 0:
